@@ -13,6 +13,20 @@ COMMON_NOTE = ("Trusted: Coq 8.16.1 kernel incl. vm_compute (no native_compute, 
 T = "Coq proof ({how}) + in-Coq differential correspondence"
 
 CHECKS = {
+    "C08": dict(
+        text="Theorems (Props/C08.v, 13, all Closed under the global context), about Deb822/Model.v's own validate_input, "
+             "setitem, dump, iter_paragraphs and regex leaves, over the property's character domain: for every paragraph with "
+             "valid distinct names whose values are all accepted, re-reading the dump with whitespace-separates-paragraphs "
+             "False gives exactly ONE paragraph with the same names in the same order — as str, bytes and file object — and "
+             "the same under the default setting whenever no continuation line is whitespace-only; validate_input rejects "
+             "exactly the three stated shapes (both directions) with ValueError and setitem then leaves the mapping unchanged; "
+             "an accepted continuation line can match none of _single, _multi, the armour pattern; agree c -> holds c for every "
+             "case, so a holds failure always comes with an agree failure.  Induction over field and line lists.",
+        design="§4 C08",
+        note=COMMON_NOTE + "Modelled not verified: regex leaves (C02's correspondence compares them with the live patterns), "
+             "Deb822Dict as association list.  Outside the domain (NBSP, VT, FF, NEL, LS ... in values; names with ':' or a "
+             "leading '#') nothing is claimed — the generator's out-of-domain stream still exercises agree there.",
+        technique=T.format(how="implication proved by induction over fields/lines on the C02 model")),
     "C17": dict(
         text="Theorems (Props/C17.v, 17, all Closed under the global context): parse_multiline_as_lines(format_multiline_lines ls) "
              "= ls exactly on the stated boolean domain (no line-boundary character; later lines neither whitespace-only nor a "
